@@ -1629,7 +1629,7 @@ fn main() {
                 }
                 let chunks = np.div_ceil(PATH_CHUNK as u64);
                 let label = if life == Life::Warm { format!("matrix_p{pair}") } else { format!("matrix_p{pair}_{life:?}") };
-                let ran = run.parallel(&label, nc * chunks, tier.pick(0.7, 0.12), |case, _rng, st| {
+                let ran = run.parallel(&label, nc * chunks, tier.pick(0.7, 0.25), |case, _rng, st| {
                     let (ci, chunk) = ((case / chunks) as usize, (case % chunks) as usize);
                     drive!(st, "matrix", matrix_group(&cfg, life, ci, chunk, st));
                 });
@@ -1655,7 +1655,7 @@ fn main() {
     }
     if run.wants("hist") {
         let len = tier.pick(16, 26);
-        run.parallel("hist", tier.pick(192, 30000), 0.9, |case, rng, st| {
+        run.parallel("hist", tier.pick(192, 45000), 0.9, |case, rng, st| {
             drive!(st, "hist", hist_case(case, rng, st, len));
         });
     }
